@@ -24,13 +24,13 @@ NA = {
 CHECKS = {
  "C01": dict(
    category="exploration",
-   text="Receiver survival under a Byzantine wire inside a resource envelope: valid traffic of every type is corrupted by seeded byte-level and Byzantine-peer faults (cut, append/dup, flip/set, delete/insert/splice, length-head inflation, re-encoding, subtree substitution, nesting along every decoder recursion cycle) and delivered to all 31 byte-level decoding endpoints running in child processes on a 2 MiB thread stack under a budgeted counting allocator and a watchdog, with coset built with and without its std feature; every accepted value is then cloned, compared, re-encoded, dropped and handed to every helper whose documented precondition holds. The oracle is survival: no panic, abort, stack overflow, budget breach or hang. Exploration (sampled), which is the right level for an all-byte-strings property whose failures need faults and environment limits to line up.",
+   text="Receiver survival under a Byzantine wire inside a resource envelope: valid traffic of every type is corrupted by seeded byte-level and Byzantine-peer faults (cut, append/dup, flip/set, delete/insert/splice, length-head inflation, re-encoding, subtree substitution, nesting along every decoder recursion cycle) and delivered to all 31 byte-level decoding endpoints running in child processes on a 2 MiB thread stack under a budgeted counting allocator, a CPU-time envelope relative to a reference parse, scaling probes and a watchdog, with coset built with and without its std feature; every accepted value is then cloned, compared, re-encoded, dropped and handed to every helper whose documented precondition holds. The oracle is survival: no panic, abort, stack overflow, budget breach, super-linear cost or hang; violations that need earlier calls in the same process are reported with a history replay. Exploration (sampled), which is the right level for an all-byte-strings property whose failures need faults and environment limits to line up.",
    design_ref="DESIGN.md 5.1, 7, Appendix D",
    note="Samples the neighbourhood of valid traffic and the nesting axes, not all byte strings. 'Ordinary thread stack' is fixed as Rust's 2 MiB default for spawned threads with release-profile code generation; allocation budgets are linear in input length with constants >= 4x the measured worst legitimate case. Crypto closures are stubs.",
    technique="deterministic simulation with fault injection: seeded wire faults + environment envelope (stack, allocator budget, watchdog) on child-process nodes, replay + minimisation"),
  "C06": dict(
    category="exploration",
-   text="Sender histories -> wire -> receiver: seeded histories over all public methods of the nine creating builders (embedded/detached, fallible/infallible, nested recipients) with a recording crypto stub that can fail on command; the built message is encoded, passed through a wire that applies region-targeted tampering, decoded, and verified/decrypted under equal and perturbed AAD/payload. A reference model tracks the covered tuple at every create event; invariants I1-I5 (stored value, same bytes iff same tuple in both directions, result pass-through, failing creator, no panic) are checked per verification. Exploration over histories and fault sequences.",
+   text="Sender histories -> wire -> receiver: seeded histories over all public methods of the nine creating builders (embedded/detached, fallible/infallible, nested recipients) with a recording crypto stub that can fail on command; the built message is encoded, passed through a wire that applies region-targeted tampering, decoded, and verified/decrypted under equal and perturbed AAD/payload. A reference model tracks the covered tuple at every create event; invariants I1-I6 (stored value, same bytes iff same tuple over all pairs of log entries, result pass-through, failing creator, no panic, wire fidelity: the encoded message carries exactly what the builder was given) are checked; the receiver also verifies a clone, a second encode+decode hop and the documented edit-after-decode. Exploration over histories and fault sequences.",
    design_ref="DESIGN.md 5.2",
    note="Both sides are coset, so a deviation applied identically to creator and verifier is invisible (that is C03-C05, not claimed). Palettes bound the argument space. Crypto is a stub returning unique tokens.",
    technique="deterministic simulation with fault injection: seeded builder histories, failing-dependency and wire-tamper faults, reference-model oracle, replay + minimisation"),
@@ -42,9 +42,9 @@ CHECKS = {
    technique="deterministic simulation with fault injection: exhaustive torn-write / coalescing fault placement per simulated message"),
  "C14": dict(
    category="fault_enumeration",
-   text="Misdelivery and tag-head corruption enumerated for every simulated taggable message: the tagged bytes of each message are delivered to all six tagged and untagged decoders, the tag head is rewritten to every number of a palette (registered numbers, neighbours, one-bit flips, 0, 61, 55799, 2^32, 2^64-1) at every head width, double-tagged and stripped; acceptance must be exactly 'own registered tag once over an accepted body' with the same value. Weak fit, disclosed: stateless; the simulator contributes exhaustive endpoint x tag placement, replay and minimisation.",
+   text="Misdelivery and tag-head corruption enumerated for every simulated taggable message: the tagged bytes of each message are delivered to all six tagged and untagged decoders, the tag head is rewritten to every number of a ~230-entry palette (0..127, registered numbers and neighbours, all one-bit flips, arithmetic derivatives, seeded 64-bit numbers) in several head widths, double-tagged with every palette number, given malformed heads, and stripped; bodies are valid, invalid, non-canonical or nested at the parser's depth limit; acceptance must be exactly 'own registered tag once over an accepted body' with the same value. Weak fit, disclosed: stateless; the simulator contributes exhaustive endpoint x tag placement, replay and minimisation.",
    design_ref="DESIGN.md 5.4, 1",
-   note="Registered tag numbers come from an independent table in the harness. Whether rewritten bytes are CBOR at all is judged by coset's own Value decoder so a stricter CBOR parser underneath cannot raise an alarm.",
+   note="Registered tag numbers come from an independent table in the harness; 'a body the untagged decoder accepts' is decided by coset's own untagged decoder. One known finding (own tag rejected for bodies nested exactly to the CBOR parser's depth limit) is listed in known_findings.txt and printed as KNOWN-FINDING; see DESIGN.md 10.8.",
    technique="deterministic simulation with fault injection: exhaustive misdelivery / tag-corruption placement per simulated message"),
  "C19": dict(
    category="exploration",
@@ -93,7 +93,7 @@ def main():
         }],
         "checks": checks,
         "not_applicable": na,
-        "notes": "Technique family: deterministic simulation with fault injection. coset has no threads, clock, I/O or shared state, so 15 of 20 properties (pure single-call input properties judged against RFCs) are answered not applicable rather than re-decided with another technique; see DESIGN.md sections 0, 1 and 6. C13 and C14 are disclosed weak fits. Known findings protocol: /verif/known_findings.txt.",
+        "notes": "All checks run under two builds of coset (std feature off: all runs; on: a quarter of them again). Technique family: deterministic simulation with fault injection. coset has no threads, clock, I/O or shared state, so 15 of 20 properties (pure single-call input properties judged against RFCs) are answered not applicable rather than re-decided with another technique; see DESIGN.md sections 0, 1 and 6. C13 and C14 are disclosed weak fits. Known findings protocol: /verif/known_findings.txt.",
     }
     json.dump(m, open("/verif/MANIFEST.json", "w"), indent=1)
     print("wrote MANIFEST.json with checks:", ", ".join(sorted(claimed)))
